@@ -5,7 +5,7 @@ import io
 import itertools
 from .. import model, sweep, codecs, cli
 from ..runner import Result, scratch
-from ..bridge import build, quiet, all_nodes, raw_leaves
+from ..bridge import build, quiet, all_nodes, raw_leaves, build_any
 from .c05 import assign_heads, head_choices
 
 from trees import transitions, transitionoutput
@@ -202,7 +202,7 @@ def check_one(mtj, system, order=None):
                     'detail': '%s [input %s]' % (detail, model.mt_str(mt.root, mt.toks)),
                     'what': what or ('%s: %s' % (system, kind))})
     fn, with_heads = REPLAY[system]
-    t = set_heads(build(mt, child_order=order))
+    t = set_heads(build_any(mt, order))
     try:
         terms, trans = getattr(transitions, system)(t)
         seq = [str(x) for x in trans]
@@ -333,7 +333,7 @@ def run_chunk(chunk):
                 for system in systems:
                     if system == 'topdown' and not cont:
                         continue
-                    for order in (None, 'rev'):
+                    for order in (None, 'rev', 'export'):
                         vs = check_one(j, system, order)
                         res.evals += 1
                         if mt.n() >= 2 and (k > 0 or not cont or any(c == 1 for c in choice.values())):
